@@ -256,6 +256,49 @@ def reachable_refusals(func):
     return count
 
 
+def predicate_guards(func):
+    """For a predicate of the shape `if c1: return False ... return True`:
+    the texts of the tests whose true branch returns False and that
+    dominate the final `return True` (top level of the body only)."""
+    guards = []
+    body = list(func.body)
+    if not body or not (isinstance(body[-1], ast.Return) and
+                        isinstance(body[-1].value, ast.Constant) and
+                        body[-1].value.value is True):
+        raise AnalysisError(f"{func.name}: not of the shape "
+                            f"'guards ...; return True'")
+    for stmt in body[:-1]:
+        if isinstance(stmt, ast.If) and not stmt.orelse and \
+                len(stmt.body) == 1 and isinstance(stmt.body[0], ast.Return) \
+                and isinstance(stmt.body[0].value, ast.Constant) and \
+                stmt.body[0].value.value is False and \
+                const_test(stmt.test) is None:
+            guards.append(" ".join(ast.unparse(stmt.test).split()))
+        elif any(isinstance(s, ast.Return) for s in ast.walk(stmt)):
+            raise AnalysisError(f"{func.name}: a return inside "
+                                f"'{ast.unparse(stmt)[:40]}' is outside the "
+                                f"simple predicate shape")
+    return guards
+
+
+def check_predicate(idx, run, rule, clsname, meth, required):
+    """required: [(tuple of alternative fragments, why)] - each must occur
+    in some `if ...: return False` guard of the predicate"""
+    cls, owner, func = resolve_method(idx, clsname, meth)
+    guards = predicate_guards(func)
+    cons = f"{clsname}.{meth}"
+    for frags, why in required:
+        if isinstance(frags, str):
+            frags = (frags,)
+        ok = any(f in g for g in guards for f in frags)
+        run.check(rule, ok, cons, f"answers False when {why}",
+                  f"{cons} can answer True although {why}: none of its "
+                  f"'return False' guards tests {list(frags)} any more "
+                  f"(guards: {guards})", loc(owner.module, func),
+                  sample={"rule": rule, "predicate": cons,
+                          "required": list(frags), "ok": ok})
+
+
 def check_table(idx, run, rule, table):
     """table: {(Class, method): {"consults": [(fragment, why, bypass)],
     "raises": floor}}"""
